@@ -238,7 +238,9 @@ class ResultTypesGenerator:
             )
 
         if fragments:
-            class_bases = [str_to_pascal_case(f) for f in sorted(fragments)]
+            class_bases = [
+                str_to_pascal_case(f) for f in self._sort_base_fragments(fragments)
+            ]
         else:
             class_bases = [BASE_MODEL_CLASS_NAME]
         if extra_bases:
@@ -341,6 +343,44 @@ class ResultTypesGenerator:
             set(fragments)
         )
         return fields, fragments
+
+    def _sort_base_fragments(self, fragments: Set[str]) -> List[str]:
+        """Sort by name, but keep a fragment before the fragments it spreads:
+        a class has to precede its own bases in the list of bases."""
+        remaining = sorted(fragments)
+        spread = {
+            name: self._get_spread_fragments(
+                self.fragments_definitions[name].selection_set
+            )
+            for name in remaining
+        }
+        result: List[str] = []
+        while remaining:
+            name = next(
+                (
+                    n
+                    for n in remaining
+                    if not any(n in spread[other] for other in remaining)
+                ),
+                remaining[0],
+            )
+            remaining.remove(name)
+            result.append(name)
+        return result
+
+    def _get_spread_fragments(self, selection_set: SelectionSetNode) -> Set[str]:
+        names: Set[str] = set()
+        for node in selection_set.selections:
+            if isinstance(node, FragmentSpreadNode):
+                names.add(node.name.value)
+                names = names.union(
+                    self._get_spread_fragments(
+                        self.fragments_definitions[node.name.value].selection_set
+                    )
+                )
+            elif isinstance(node, InlineFragmentNode):
+                names = names.union(self._get_spread_fragments(node.selection_set))
+        return names
 
     def _get_inline_fragment_root_type(
         self, selection_value: str, root_type: str
